@@ -454,4 +454,27 @@ theorem simple_number_sound' (b : Bytes) (hpos : consumeSimpleNumber b ≠ 0) :
         simp [numInteger, hm, hz, h19, frac_stop _ _ hfin]
       · simp [consumeSimpleNumber, hz, h19] at hpos
 
+/-- the invalid-character answer is determined by the DFA as well -/
+theorem scan_invalid_unique (b : Bytes) (n : Nat) (hn : n < b.length) (hlive : run .start (b.take n) ≠ .dead)
+    (hnacc : acc (run .start (b.take n)) = false) (hdead : run .start (b.take (n + 1)) = .dead)
+    (m : Nat) (e : Err) (hg : Good .start b m e) : e = .invalidChar ∧ m = n := by
+  cases e
+  case ok =>
+    obtain ⟨h1, h2, h3⟩ := hg
+    exfalso
+    rcases Nat.lt_trichotomy m n with h | h | h
+    · exact absurd (dead_next .start b m h3 (by omega)) (live_take _ b (m + 1) n h hlive)
+    · subst h; rw [h2] at hnacc; cases hnacc
+    · exact absurd hdead (live_take _ b (n + 1) m h (acc_live _ h2))
+  case eof =>
+    exact absurd hdead (live_whole _ b _ hg.1)
+  case invalidChar =>
+    obtain ⟨h1, h2, h3, h4⟩ := hg
+    refine ⟨rfl, ?_⟩
+    rcases Nat.lt_trichotomy m n with h | h | h
+    · exact absurd (dead_next .start b m h4 h1) (live_take _ b (m + 1) n h hlive)
+    · exact h
+    · exact absurd hdead (live_take _ b (n + 1) m h h2)
+  all_goals exact absurd hg (by simp [Good])
+
 end JsonV.Lemmas.WireNumber
